@@ -58,6 +58,8 @@ CLAIMED["C04"] = dict(engine="channel", tech="TLA+ model Channel.tla (senders, s
    text="Every interleaving of the model instance is checked by TLC; on the real code each run's complete send/deliver history is checked by TLC against the same operators.", ref="DESIGN.md 3.2, 5 (C04)", note=CHAN_NOTE)
 CLAIMED["C13"] = dict(engine="channel", tech="TLA+ model Channel.tla (FinishSession steps racing with senders and the receiver; invariant WriterExclusion) checked by TLC; perturbed free runs over the five transports ending the session by client finish / server finish / server fail / Server.Close, idle or during traffic; TLC monitor ChanObs (C13_CleanEnd, C13_NoLeak, C13_NoCrash)",
    text="The model is checked for every moment of termination relative to traffic in flight; real sessions are ended at seeded moments and what both parties observe (terminal state, receiver-done, streams, consumers, connection, goroutine census, process survival) is checked by TLC.", ref="DESIGN.md 3.2, 5 (C13)", note=CHAN_NOTE)
+CLAIMED["C17"] = dict(engine="channel", tech="TLA+ model Iso.tla (per-connection channels, session context built from the channel that owns the connection, sender = that channel, fresh session ids, arbitrary registered nodes) checked by TLC; free runs of 3-12 concurrent real sessions on one Server listening on TCP, WebSocket and in-process at once, registration assigning equal addresses to several sessions; TLC monitor ChanObs (C17_Isolated)",
+   text="All interleavings of three sessions' traffic are checked on the model; on the real Server every handler invocation's context values are compared with what that client's session announced, and every reply sent through the handler's sender is followed to the client that receives it.", ref="DESIGN.md 3.5, 5 (C17)", note=CHAN_NOTE)
 CLAIMED["C06"]["engine"] = "hs-server+hs-client"
 CLAIMED["C06"]["note"] = HS_NOTE + " Both roles: server role on HsServer behaviours, client role on HsClient behaviours."
 CLAIMED["C06"]["tech"] += " and HsClient.tla + C06_ClientSendGuard for the client role"
@@ -91,8 +93,8 @@ m = {
            "baseline_off_cmd": "cd /repo && GOFLAGS=-mod=mod GOPROXY=off GOSUMDB=off GOTOOLCHAIN=local go test -json -vet=off -count=1 -timeout 25m ./...",
            "source_commits": hook_commits, "add_only": True},
  "engines": [
-   {"name": "channel", "path": "spec/Channel.tla spec/ChannelMC.tla spec/ChanProps.tla spec/ChanObs.tla harness/chand tools/engines/chan.py",
-    "serves_properties": ["C04", "C13"],
+   {"name": "channel", "path": "spec/Channel.tla spec/ChannelMC.tla spec/Iso.tla spec/IsoMC.tla spec/ChanProps.tla spec/ChanObs.tla harness/chand tools/engines/chan.py",
+    "serves_properties": ["C04", "C13", "C17"],
     "kind_free_text": "TLA+ model of the established data path and teardown, exhaustive TLC check, perturbed free runs of real sessions over five transports (process per run), TLC trace monitor"},
    {"name": "mux", "path": "spec/Mux.tla spec/MuxMC.tla spec/MuxProps.tla spec/MuxObs.tla harness/muxd tools/engines/mux.py",
     "serves_properties": ["C20"],
